@@ -10,11 +10,11 @@ import (
 	"context"
 	"encoding/hex"
 	"encoding/json"
-	"errors"
 	"flag"
 	"fmt"
 	"os"
 	"reflect"
+	"sort"
 	"strings"
 	"sync"
 	"time"
@@ -49,21 +49,21 @@ func (o TOp) value() []byte {
 }
 
 type Case struct {
-	ID      int               `json:"id"`
-	Gen     string            `json:"gen"`
-	Kind    string            `json:"kind"`           // proc | table
-	Node    string            `json:"node,omitempty"` // formatter | jff | filter
-	Pred    int               `json:"pred"`           // 0 absent 1 true 2 false 3 error
-	Type    string            `json:"type,omitempty"` // hex
-	Time    jgen.TimeSpec     `json:"time"`
-	Payload *jgen.Recipe      `json:"payload,omitempty"`
-	Ctx     int               `json:"ctx,omitempty"` // context handed to Process (jgen.MkContext)
-	NilTab  bool              `json:"nil_table,omitempty"`
-	Pre     []jgen.TableEntry `json:"pre,omitempty"`
-	Ops     []TOp             `json:"ops,omitempty"`
+	ID       int               `json:"id"`
+	Gen      string            `json:"gen"`
+	Kind     string            `json:"kind"`           // proc | table
+	Node     string            `json:"node,omitempty"` // formatter | jff | filter
+	Pred     int               `json:"pred"`           // 0 absent 1 true 2 false 3 error
+	Type     string            `json:"type,omitempty"` // hex
+	Time     jgen.TimeSpec     `json:"time"`
+	Payload  *jgen.Recipe      `json:"payload,omitempty"`
+	Ctx      int               `json:"ctx,omitempty"`       // context handed to Process (jgen.MkContext)
+	ErrClass int               `json:"err_class,omitempty"` // which error value a failing predicate returns (jgen.InjectedError)
+	Again    int               `json:"again,omitempty"`     // further Process calls on the SAME event (the caller clobbers the stored line in between)
+	NilTab   bool              `json:"nil_table,omitempty"`
+	Pre      []jgen.TableEntry `json:"pre,omitempty"`
+	Ops      []TOp             `json:"ops,omitempty"`
 }
-
-var errPred = errors.New("predicate failed")
 
 type Obs struct {
 	Err     bool              `json:"err"`
@@ -106,10 +106,10 @@ func runProc(c Case) (ret *retained, obs Obs, nontrivial bool) {
 			return false, nil
 		case 4:
 			predErr = true
-			return true, errPred // an error is an error whatever the boolean says
+			return true, jgen.InjectedError(c.ErrClass) // an error is an error whatever the boolean says
 		}
 		predErr = true
-		return false, errPred
+		return false, jgen.InjectedError(c.ErrClass)
 	}
 	var node el.Node
 	var nodeLit string
@@ -142,6 +142,24 @@ func runProc(c Case) (ret *retained, obs Obs, nontrivial bool) {
 		defer release()
 		out, err = node.Process(ctx, e)
 	}()
+	for again := 0; again < c.Again && obs.Panic == ""; again++ {
+		// the caller keeps the event, overwrites the stored line (when there is one from a successful encoding) and processes
+		// the event again: the line must be rendered afresh from the event, whatever the table holds
+		if _, has := e.Format("json"); has && c.Node != "filter" && (err == nil || predErr) {
+			e.FormattedAs("json", []byte("clobbered by the caller"))
+		}
+		predErr = false
+		func() {
+			defer func() {
+				if p := recover(); p != nil {
+					obs.Panic = fmt.Sprint(p)
+				}
+			}()
+			ctx, release, _ := jgen.MkContext(c.Ctx)
+			defer release()
+			out, err = node.Process(ctx, e)
+		}()
+	}
 	obs.Err = err != nil
 	if err != nil {
 		obs.ErrText = err.Error()
@@ -191,7 +209,7 @@ func runProc(c Case) (ret *retained, obs Obs, nontrivial bool) {
 		hc.B(obs.Err), obs.Out, jgen.TableLit(e.Formatted, extra), hc.B(obs.Frame), obs.Decode, hc.B(predErr))
 	// keep the event together with a private copy of what is stored under json right now: it is re-read after later
 	// Process calls on other events (the stored line must stay what was stored)
-	ret = &retained{id: c.ID, prefix: prefix, ev: e}
+	ret = &retained{id: c.ID, prefix: prefix, ev: e, frame: frameOf(e), errs: jgen.ErrorsIn(gv)}
 	if v, has := e.Format("json"); has {
 		ret.has = true
 		ret.copy = append([]byte{}, v...)
@@ -211,11 +229,34 @@ type retained struct {
 	later    int // ... after which a change was first seen (0: none)
 	final    []byte
 	finalHas bool
+	frame    string       // type, time, deep payload snapshot and every other entry of the table right after the call
+	errs     []jgen.ErrAt // the error values in the payload
+	moved    bool         // ... were found changed at a later re-read
+}
+
+// frameOf: everything of the event except the entry under json
+func frameOf(e *el.Event) string {
+	var sb strings.Builder
+	fmt.Fprintf(&sb, "%x|%d|%s|%s|", string(e.Type), e.CreatedAt.UnixNano(), e.CreatedAt.Location(), jgen.Snapshot(e.Payload))
+	names := make([]string, 0, len(e.Formatted))
+	for k := range e.Formatted {
+		if k != "json" {
+			names = append(names, k)
+		}
+	}
+	sort.Strings(names)
+	for _, k := range names {
+		fmt.Fprintf(&sb, "%q=%x nil=%v;", k, e.Formatted[k], e.Formatted[k] == nil)
+	}
+	return sb.String()
 }
 
 func (r *retained) recheck(calls int) {
 	if r.ev == nil {
 		return
+	}
+	if !r.moved && (frameOf(r.ev) != r.frame || !jgen.SameErrors(r.errs, jgen.ErrorsIn(r.ev.Payload))) {
+		r.moved = true
 	}
 	r.since += calls
 	if r.later != 0 {
@@ -232,10 +273,11 @@ func (r *retained) lit() string {
 	if r.ev == nil {
 		return r.prefix
 	}
+	still := "; o_still := " + hc.B(!r.moved)
 	if r.later == 0 {
-		return r.prefix + "; o_final := None; o_later := 0 |} |}" // re-read and equal to the private copy every time
+		return r.prefix + still + "; o_final := None; o_later := 0 |} |}" // re-read and equal to the private copy every time
 	}
-	return r.prefix + fmt.Sprintf("; o_final := (Some %s); o_later := %d |} |}", jgen.OptBytes(r.final, r.finalHas), r.later)
+	return r.prefix + still + fmt.Sprintf("; o_final := (Some %s); o_later := %d |} |}", jgen.OptBytes(r.final, r.finalHas), r.later)
 }
 
 var churnPayloads = []interface{}{"", "x", strings.Repeat("z", 700), map[string]interface{}{"k": []interface{}{1, "two", nil}}, strings.Repeat("<&>\n", 40), 12345}
@@ -382,10 +424,42 @@ func (em *emitter) flush() {
 	em.batch = nil
 }
 
+// watchdog: a call that does not return is a finding, with the case as replay
+var watch struct {
+	sync.Mutex
+	js    []byte
+	since time.Time
+	out   string
+}
+
+func watchCase(js []byte) {
+	watch.Lock()
+	watch.js, watch.since = js, time.Now()
+	watch.Unlock()
+}
+func startWatchdog(out string) {
+	watch.out = out
+	go func() {
+		for {
+			time.Sleep(time.Second)
+			watch.Lock()
+			js, since := watch.js, watch.since
+			watch.Unlock()
+			if js != nil && time.Since(since) > 30*time.Second {
+				os.WriteFile(watch.out+"/hang.json", js, 0o644)
+				fmt.Printf("HANG: a call did not return within 30 s; case: %s\n", js)
+				os.Exit(4)
+			}
+		}
+	}()
+}
+
 func (em *emitter) emit(c Case) {
 	c.ID = em.next
 	em.next++
 	js, _ := json.Marshal(c)
+	watchCase(js)
+	defer watchCase(nil)
 	if c.Kind == "table" {
 		lit, p := runTable(c)
 		if p != "" {
@@ -455,6 +529,10 @@ func genProc(em *emitter, r *hc.Rand, n, depth int, unencPermille int) {
 		c.Time = jgen.GenTime(r)
 		c.Payload = g.Payload(depth, unencPermille)
 		c.Ctx = jgen.GenCtx(r)
+		c.ErrClass = r.Intn(jgen.ErrClasses)
+		if r.Chance(1, 6) {
+			c.Again = 1 + r.Intn(2)
+		}
 		c.NilTab, c.Pre = jgen.GenPre(r, g)
 		em.emit(c)
 	}
@@ -509,6 +587,85 @@ func genSpecials(em *emitter) {
 				NilTab: j%2 == 0})
 		}
 	}
+}
+
+// the remaining input classes of notes/value_classes.md that C14's statement speaks about
+func genAudit(em *emitter) {
+	hexs := func(s string) string { return hex.EncodeToString([]byte(s)) }
+	small := &jgen.Recipe{K: "map", Ks: []string{hexs("a")}, E: []*jgen.Recipe{{K: "int", T: "int", V: "1"}}}
+	// predicate errors of every class x (false, err) / (true, err), for JSONFormatterFilter and Filter
+	for ec := 0; ec < jgen.ErrClasses; ec++ {
+		for _, node := range []string{"jff", "filter"} {
+			for _, pred := range []int{3, 4} {
+				em.emit(Case{Gen: "audit-errors", Kind: "proc", Node: node, Pred: pred, ErrClass: ec, Type: hexs("t"), Time: jgen.Times[1], Payload: small, Ctx: (ec + pred) % jgen.CtxKinds})
+			}
+		}
+	}
+	// a container type first rejected (a channel inside), then the same type with encodable content must be accepted — and
+	// the reverse order; for every container type
+	ch := &jgen.Recipe{K: "unenc", V: "chan"}
+	one := &jgen.Recipe{K: "int", T: "int", V: "1"}
+	for _, mk := range []func(inner *jgen.Recipe) *jgen.Recipe{
+		func(in *jgen.Recipe) *jgen.Recipe {
+			return &jgen.Recipe{K: "map", Ks: []string{hexs("k")}, E: []*jgen.Recipe{in}}
+		},
+		func(in *jgen.Recipe) *jgen.Recipe {
+			return &jgen.Recipe{K: "map", T: "named", Ks: []string{hexs("k")}, E: []*jgen.Recipe{in}}
+		},
+		func(in *jgen.Recipe) *jgen.Recipe {
+			return &jgen.Recipe{K: "map", T: "ptr", Ks: []string{hexs("k")}, E: []*jgen.Recipe{in}}
+		},
+		func(in *jgen.Recipe) *jgen.Recipe { return &jgen.Recipe{K: "arr", E: []*jgen.Recipe{in}} },
+		func(in *jgen.Recipe) *jgen.Recipe { return &jgen.Recipe{K: "arr", T: "array", E: []*jgen.Recipe{in}} },
+		func(in *jgen.Recipe) *jgen.Recipe { return &jgen.Recipe{K: "arr", T: "ptr", E: []*jgen.Recipe{in}} },
+		func(in *jgen.Recipe) *jgen.Recipe {
+			return &jgen.Recipe{K: "struct", Ks: []string{"f"}, Opt: []string{""}, E: []*jgen.Recipe{in}}
+		},
+		func(in *jgen.Recipe) *jgen.Recipe {
+			return &jgen.Recipe{K: "struct", T: "ptr", Ks: []string{"f"}, Opt: []string{""}, E: []*jgen.Recipe{in}}
+		},
+		func(in *jgen.Recipe) *jgen.Recipe {
+			return &jgen.Recipe{K: "map", Ks: []string{hexs("o")}, E: []*jgen.Recipe{{K: "arr", E: []*jgen.Recipe{in}}}}
+		},
+	} {
+		for _, node := range []string{"formatter", "jff"} {
+			for _, order := range [][]*jgen.Recipe{{ch, one, ch, one}, {one, ch, one}} {
+				for _, in := range order {
+					em.emit(Case{Gen: "audit-reject-then-accept", Kind: "proc", Node: node, Type: hexs("t"), Time: jgen.Times[1], Payload: mk(in)})
+				}
+			}
+		}
+	}
+	// string lengths around the block sizes, as payload, as map key and as event type
+	for _, n := range []int{63, 64, 65, 127, 128, 129, 255, 256, 300, 1000} {
+		str := strings.Repeat("a", n-1) + "<"
+		em.emit(Case{Gen: "audit-lengths", Kind: "proc", Node: "formatter", Type: hexs(str), Time: jgen.Times[1],
+			Payload: &jgen.Recipe{K: "map", Ks: []string{hexs(str)}, E: []*jgen.Recipe{{K: "str", V: hexs(str)}}}})
+	}
+	// the same event processed again, the stored line clobbered by the caller in between
+	for again := 1; again <= 2; again++ {
+		for _, node := range []string{"formatter", "jff", "filter"} {
+			for pred := 0; pred < 5; pred++ {
+				if node == "formatter" && pred != 0 || node == "filter" && pred == 0 {
+					continue
+				}
+				for _, pl := range []*jgen.Recipe{small, ch, {K: "special", V: "err-new"}} {
+					em.emit(Case{Gen: "audit-again", Kind: "proc", Node: node, Pred: pred, Again: again, Type: hexs("t"), Time: jgen.Times[1], Payload: pl,
+						Pre: []jgen.TableEntry{{F: "text", V: hexs("T")}}})
+				}
+			}
+		}
+	}
+	// every creation time of the list (zero, epoch, far future, sub-second digits, zones, out of range) for both formatters
+	for i, t := range append(append([]jgen.TimeSpec{}, jgen.Times...), jgen.BadTimes...) {
+		em.emit(Case{Gen: "audit-times", Kind: "proc", Node: []string{"formatter", "jff"}[i%2], Type: hexs("t"), Time: t, Payload: small})
+	}
+	// non-UTF-8 strings inside map[string]interface{} / []interface{} payloads (values and keys): stored escaped, left untouched
+	bad := hex.EncodeToString([]byte("a\xffb\xc3(\xed\xa0\x80"))
+	em.emit(Case{Gen: "audit-nonutf8", Kind: "proc", Node: "formatter", Type: bad, Time: jgen.Times[1],
+		Payload: &jgen.Recipe{K: "map", Ks: []string{bad, hexs("l")}, E: []*jgen.Recipe{{K: "str", V: bad}, {K: "arr", E: []*jgen.Recipe{{K: "str", V: bad}, {K: "map", Ks: []string{bad}, E: []*jgen.Recipe{{K: "str", V: bad}}}}}}}})
+	em.emit(Case{Gen: "audit-nonutf8", Kind: "proc", Node: "jff", Type: hexs("t"), Time: jgen.Times[1],
+		Payload: &jgen.Recipe{K: "arr", E: []*jgen.Recipe{{K: "str", V: bad}, {K: "str", T: "named", V: bad}}}})
 }
 
 // one string payload / event type per interesting byte and per UTF-8 boundary sequence
@@ -771,7 +928,7 @@ func main() {
 	depth := flag.Int("depth", 3, "payload nesting depth")
 	unenc := flag.Int("unenc", 25, "chance in 1000 that a payload node is of the unencodable class")
 	nTable := flag.Int("table", 150, "forced FormattedAs/Format schedules")
-	perShard := flag.Int("per-shard", 120, "cases per file")
+	perShard := flag.Int("per-shard", 90, "cases per file")
 	corpus := flag.String("corpus", "", "corpus file (JSON lines), run first")
 	replay := flag.String("replay", "", "replay one JSON case and print its observations")
 	stressRounds := flag.Int("stress", 0, "free-running FormattedAs/Format rounds (use the -race binary); no case files are written")
@@ -833,6 +990,7 @@ func main() {
 		panic(err)
 	}
 	em := &emitter{cf: cf, side: side, stats: map[string]int{}, sigs: map[string]bool{}}
+	startWatchdog(*out)
 	r := hc.NewRand(hc.Seed())
 	if *corpus != "" {
 		runCorpus(em, *corpus)
@@ -844,6 +1002,7 @@ func main() {
 		case "strings":
 			genStrings(em)
 			genSpecials(em)
+			genAudit(em)
 		case "random":
 			genProc(em, r.Fork(), *nRandom, *depth, *unenc)
 		case "table":
